@@ -238,7 +238,12 @@ func runC04(r *ev.Run) {
 						if rng.IntN(3) == 0 {
 							g = append(g, orGroupMarker())
 						}
-						for k := 0; k < 1+rng.IntN(4); k++ {
+						nf := 1 + rng.IntN(4)
+						if rng.IntN(8) == 0 {
+							nf = 0 // an EMPTY group (matches every live document) next to the others
+							r.Count("probes:empty-group", 1)
+						}
+						for k := 0; k < nf; k++ {
 							if len(pool) > 0 && rng.IntN(3) == 0 {
 								g = append(g, pool[rng.IntN(len(pool))])
 								r.Count("probes:filter-repeated-across-groups", 1)
